@@ -30,8 +30,8 @@ SameS(st, c) == {r \in st.reg : Ids(r) = Ids(c)}
 Apply(ops, i, st) ==
   LET o == ops[i] IN
   CASE o.k = "reg" ->
-         IF IdClashS(st, o.c) \/ DimClashS(st, o.c)
-         THEN [ok |-> o.res # "Ok" /\ ((IdClashS(st, o.c) /\ ~DimClashS(st, o.c)) => o.res = "AlreadyReg"), st |-> st]
+         IF IdClashS(st, o.c) \/ DimClashS(st, o.c) \/ LabelClash(o.c)
+         THEN [ok |-> o.res # "Ok" /\ ((IdClashS(st, o.c) /\ ~DimClashS(st, o.c) /\ ~LabelClash(o.c)) => o.res = "AlreadyReg"), st |-> st]
          ELSE [ok |-> o.res = "Ok", st |-> AdmitS(st, o.c)]
     [] o.k = "unreg" ->
          IF SameS(st, o.c) # {} THEN [ok |-> o.res = "Ok", st |-> [st EXCEPT !.reg = @ \ SameS(st, o.c)]]
